@@ -2,6 +2,18 @@ NOTES = ('Bounded-exhaustive model checking of the real implementation; see DESI
          'Known genuine defects are listed in known_findings.json.')
 NOT_APPLICABLE = {}
 CHECKS = {
+ 'C03': dict(engine='E3', design_ref='4/C03',
+    technique='exhaustive enumeration: configuration lattice (<=k deviations) x load triples for the constant-load path, full product of model x laminate x flags x orders x state x Gauss order x laminate-table form for the state-based path; real Panel.calc_kG0 vs reference work Hessian',
+    text='Constant-load matrices are compared entry-wise with the Hessian of the pre-stress work (exact 1-D tables), only out-of-plane amplitudes may be touched, symmetry, '
+         'homogeneity and additivity in the load triple as edges between real executions. State-based matrices are compared with a reference using N = A eps + B kappa of the same state at the same Gauss points; '
+         'uniform-membrane states must reproduce the constant-load matrix; per-point tables equal to the uniform laminate must change nothing; inputs must stay untouched.',
+    note='Gauss points of the reference come from numpy (the package table is checked in C10); kernels cannot be regenerated in the sandbox'),
+ 'C04': dict(engine='E3', design_ref='4/C04',
+    technique='exhaustive enumeration of a configuration lattice (<=k deviations over model, geometry, thickness, offset, 24 flags, orders, sub-interval, placement, density) on the real Panel.calc_kM against the kinetic-energy Hessian; full product for the reference-surface invariance edge',
+    text='Every mass matrix entry is compared with the Hessian of the kinetic energy of (u - z w,x, v - z w,y, w); symmetry, positive definiteness on active amplitudes, '
+         'rigid-translation mass = mu*h*area of the sub-interval, and invariance of the elastic spectrum of an unrestrained homogeneous panel under a move of the reference surface '
+         '(edge between two real executions).',
+    note='the coupling-sign defect of the kernels is a known finding matched by an explained-by signature (agreement with the reference built with the opposite coupling sign); any other deviation is a violation'),
  'C02': dict(engine='E3', design_ref='4/C02',
     technique='exhaustive enumeration of a configuration lattice (all assignments within k deviations of several bases over model, geometry, laminate, offset, 24 edge flags, series orders incl. index 30, y sub-intervals, placement, pre-load, finalize) on the real Panel.calc_k0 against an independent strain-operator Hessian assembled from exact 1-D integrals',
     text='Every lattice configuration is executed through the public Panel API and every matrix entry is compared with int B^T F B derived from the Donnell strain operator '
